@@ -1648,6 +1648,8 @@ class Interp(object):
         from . import symset as _ss
         if isinstance(it, _ss.SSet):
             it = _ss.as_slist(self, it)
+        if it is None or isinstance(it, (SInt, SBool)) or (isinstance(it, (int, float)) and not isinstance(it, enum.Enum)):
+            self.raise_py(TypeError, "'%s' object is not iterable" % self.pytype(it).__name__)
         concrete_items = None
         try:
             concrete_items = self.iterate_concrete(it)
